@@ -34,7 +34,7 @@ def build_map(cfg, hold_back=0, mm=None, regs=None, start=0):
     for i, r in enumerate(todo, start):
         if cfg.get("probe") and r.get("addr") is not None:
             mm.decode_address(r["addr"])           # "is this slot free?" - a query before the add
-        reg = StubReg(r["w"], r["acc"])
+        reg = StubReg(r["w"], csr.Element.Access(r["acc"]) if i % 2 else r["acc"])
         need = max(1, -(-r["w"] // cfg["dw"]))
         mm.add_resource(reg, name=(f"r{i}",), size=need + r.get("pad", 0), addr=r.get("addr"),
                         alignment=r.get("ralign"))
